@@ -7,12 +7,15 @@ the specification denotes (track, channel, key, start, duration, velocity)."""
 import vlib, astgen, mmlgen, midinotes
 
 COQ_TARGET = "props/C03.v"
-THEOREMS = ["C03_defaults"]
+THEOREMS = ["C03_defaults", "C03_tuplet_count", "C03_exec", "C03_exec_tokens", "C03_exec_from", "C03_initial", "C03_notes",
+            "C03_run_source", "C03_step_note"]
 RULE = ("programs of the core note language generated as syntax trees (nesting depth <= 3, 2..30 commands, several tracks), "
         "parameter values inside and beyond their documented ranges; plus free-form core programs for the correspondence; "
         "non-trivial = distinct program sounding at least 3 notes")
-TRUSTED = ["f32 gate arithmetic (len*gate/100) assumed exact in the sampled range", "reading of README/command.md in spec/NoteSem.v"]
-ASSUMES = ["explicit per-note gate != 0, velocity >= 0, octave >= 0 (the code's 'unset' sentinels), loop counts >= 1, track numbers 0..999"]
+TRUSTED = ["f32 gate arithmetic (len*gate/100) assumed exact in the sampled range", "reading of README/command.md in spec/NoteSem.v",
+           "lex (pprog p) = TLineNo 0 :: tokens_of p is tested on every generated tree (kind lex_vs_tokens), not proved"]
+ASSUMES = ["explicit per-note gate != 0, velocity >= 0, octave >= 0, timing != isize::MIN (the code's 'unset' sentinels), no empty velocity field before a timing/octave field, "
+           "loop counts >= 1, track numbers 0..999, chord items = parameterless notes and > <, chord gate > 0, chord velocity 0..127 (NoteSimDefs.wf_cmd)"]
 
 
 def decode_notes(ctx, hexbytes):
